@@ -36,7 +36,9 @@ RULE = (
     "into a constructor argument, call a transformer (22 settings) / decision maker / pipeline / RanksComparator "
     "statistics / RankInvariantChecker(repeat=1) / selection+copy+diff). Thorough adds ALL histories of length <= 4 over "
     "a 9-symbol alphabet (4 reads, 3 writes, argument write, transform) on a fixed 3x2 matrix. Non-trivial: at least one write or call was carried out; distinct by "
-    "case hash. Oracle: snapshot before == snapshot after every step (tobytes / exact labels; axis names excluded)."
+    "case hash. Oracle: snapshot before == snapshot after every step (tobytes / exact labels; axis names excluded): between "
+    "steps the six to_dict() parts + result parts + a re-read of every accessor read so far, after the last step every "
+    "accessor instance (a difference seen only there triggers a re-run comparing everything after every step)."
 )
 ASSUMPTIONS = [
     "labelled axes (as mkdm / from_mcda_data always produce): a pandas RangeIndex shares one materialised cache between all "
@@ -53,39 +55,42 @@ EXHAUSTIVE = True
 TRUSTED = ["harness/c02lib.py: the list of mutation channels per type and the canonical snapshot"]
 
 _TABLE = None
+_CTOR = None
+_EXTRACTED = False
 
 
-class quiet:
-    """the deprecation decorators of the library force their warnings through any filter: record them instead"""
-
-    def __enter__(self):
-        self._w = warnings.catch_warnings(record=True)
-        self._w.__enter__()
-        self._e = np.errstate(all="ignore")
-        self._e.__enter__()
-
-    def __exit__(self, *a):
-        self._e.__exit__(*a)
-        self._w.__exit__(*a)
+quiet = L.quiet
 
 
 def extract(ctx):
     """regenerate lean/Skc/Generated/Accessors.lean from the tree under test (before the Lean build)"""
-    global _TABLE
+    global _TABLE, _EXTRACTED
+    with quiet():  # load the library once, before the worker pool is forked
+        import skcriteria.agg.electre, skcriteria.agg.moora, skcriteria.agg.similarity, skcriteria.agg.simple  # noqa: F401,E401
+        import skcriteria.cmp, skcriteria.pipeline  # noqa: F401,E401
+        import skcriteria.preprocessing.filters, skcriteria.preprocessing.impute, skcriteria.preprocessing.increment  # noqa: F401,E401
+        import skcriteria.preprocessing.invert_objectives, skcriteria.preprocessing.push_negatives  # noqa: F401,E401
+        import skcriteria.preprocessing.scalers, skcriteria.preprocessing.weighters  # noqa: F401,E401
     changed = E.accessors_c02()
-    _TABLE = None
+    _TABLE, _EXTRACTED = None, True
     C.log(f"C02 extract: Accessors.lean {'rewritten' if changed else 'unchanged'}; "
-          f"memoShared: {[n for n, k, _ in table() if k == 'memoShared'] or 'none'}")
+          f"memoShared: {[n for n, k, _ in table() if k == 'memoShared'] or 'none'}; "
+          f"constructor arguments kept: {ctor_shared() or 'none'}")
+
+
+def ctor_shared():
+    table()
+    return _CTOR
 
 
 def table():
-    global _TABLE
+    """the generated table of the tree under test; in a process that has not run `extract` (replay) it is regenerated
+    first, so the model is never fed with the kinds of another tree"""
+    global _TABLE, _CTOR
     if _TABLE is None:
-        try:
-            _TABLE = E.read_accessors_c02()
-        except FileNotFoundError:
+        if not _EXTRACTED:
             E.accessors_c02()
-            _TABLE = E.read_accessors_c02()
+        _TABLE, _CTOR = E.read_accessors_c02()
     return _TABLE
 
 
@@ -127,58 +132,22 @@ def _mk_transformer(name, s):
     return getattr(importlib.import_module("skcriteria.preprocessing." + mod), cls)(**kw)
 
 
-def build(case):
-    """the subject of a case: the matrix (+ result) and the caller's own arrays, as live objects"""
-    import pandas as pd
-
-    import skcriteria as skc
-
-    d = case["dm"]
-    Mx = np.array(d["matrix"], dtype=float)
-    w = np.array(d["weights"], dtype=float)
-    if d["objdtype"] == "object-fn":
-        obj = np.array([max if o == 1 else min for o in d["objectives"]], dtype=object)
-    elif d["objdtype"] == "int":
-        obj = np.array(d["objectives"])
-    else:
-        obj = np.array(list(d["objectives"]), dtype=object)
-    alts, crits = list(d["alternatives"]), list(d["criteria"])
-    with quiet():
-        if d["ctor"] == "df":
-            idx, cols = pd.Index(alts), pd.Index(crits)
-            df = pd.DataFrame(Mx, index=idx, columns=cols)
-            args = {"df": df, "df_base": Mx, "df_index": idx, "df_columns": cols, "objectives": obj, "weights": w}
-            dm = skc.DecisionMatrix(df, obj, w)
-        elif d["ctor"] == "ndarray":
-            args = {"matrix": Mx, "objectives": obj, "weights": w}
-            dm = skc.DecisionMatrix(Mx, obj, w)
-        else:
-            a_arr = np.array(alts, dtype=object if isinstance(alts[0], str) else None)
-            c_arr = np.array(crits, dtype=object if isinstance(crits[0], str) else None)
-            args = {"matrix": Mx, "objectives": obj, "weights": w, "alternatives": a_arr, "criteria": c_arr}
-            dm = skc.mkdm(Mx, obj, weights=w, alternatives=a_arr, criteria=c_arr)
-        res = None
-        if case.get("res"):
-            try:
-                res = M.build(case["res"]).evaluate(dm)
-            except Exception:
-                res = None
-    return L.Subject(dm, args, res)
+build = L.build_subject
 
 
 def instances(s):
     return s.instances(max_alt=5, max_pairs=2)
 
 
-# `describe` is reported three times (dm.stats(), dm.stats.describe(), dm.describe()); between steps one is compared,
-# at the end of the history all of them (and if only these differ at the end, the history is re-run comparing all
-# of them after every step so that the offending step is still named)
-_DUP = {"dm.describe()", "dm.stats.describe()"}
+# Between steps the comparison covers the CORE of what the matrix / result reports (the six parts of to_dict(), the
+# result's values / alternatives / series) plus every accessor instance the history has read so far (a re-read of
+# it); after the last step it covers EVERY accessor instance.  If only the final comparison differs, the history is
+# re-run comparing everything after every step, so the first offending step is always named.
+_CORE = {n for n, _ in L.CORE}
 
 
 def run_call(s, what):
     """run one method on the matrix (everything it returns is thrown away)"""
-    import skcriteria as skc
     from skcriteria.cmp import RankInvariantChecker, RanksComparator
     from skcriteria.pipeline import mkpipe
 
@@ -201,9 +170,8 @@ def run_call(s, what):
         for i, spec in enumerate(what["specs"]):
             ranks.append((f"r{i}", M.build(spec).evaluate(dm)))
         rc = RanksComparator(ranks)
-        out = [rc.to_dataframe(), rc.to_dataframe(untied=True), rc.corr(), rc.cov(untied=True), rc.r2_score(), rc.distance(),
-               rc == rc, rc.diff(RanksComparator(ranks[::-1]))]
-        return out
+        return [rc.to_dataframe(), rc.to_dataframe(untied=True), rc.corr(), rc.cov(untied=True), rc.r2_score(), rc.distance(),
+                rc == rc, rc.diff(RanksComparator(ranks[::-1]))]
     if kind == "ric":
         return RankInvariantChecker(M.build(what["spec"]), repeat=1, random_state=what["seed"]).evaluate(dm)
     if kind == "slice":
@@ -212,6 +180,16 @@ def run_call(s, what):
         out += [dm.diff(other), dm == other, dm.equals(dm.copy()), dm.aequals(other), len(dm), dm.shape]
         return out
     raise KeyError(kind)
+
+
+def _from_harness(e):
+    """was the exception raised by harness code itself (a bug here), not inside the library / numpy / pandas?"""
+    import os
+    import traceback
+
+    tb = traceback.extract_tb(e.__traceback__)
+    here = os.path.dirname(os.path.dirname(os.path.abspath(__file__)))
+    return bool(tb) and os.path.abspath(tb[-1].filename).startswith(here)
 
 
 def _resolve(obj, op):
@@ -237,7 +215,7 @@ def run_history(case, ops=None, detail=False, full=False):
                 insts.append(inst)
     base = s.snapshot(insts)
     base_canon = [s.report(i) for i in insts] if detail else None
-    got, steps, first_bad = {}, [], None
+    got, steps, first_bad, touched = {}, [], None, set()
     with quiet():
         for t, op in enumerate(ops):
             rec = {"op": op["op"]}
@@ -273,12 +251,16 @@ def run_history(case, ops=None, detail=False, full=False):
                 except RecursionError:
                     rec["err"] = "RecursionError"
                 except Exception as e:
+                    if _from_harness(e):
+                        raise
                     rec["err"] = type(e).__name__
             everything = full or t == len(ops) - 1
-            widx = [i for i, inst in enumerate(insts) if everything or inst[0] not in _DUP]
+            if rec.get("acc") is not None:
+                touched.add(rec["acc"])
+            widx = [i for i, inst in enumerate(insts) if everything or inst[0] in _CORE or i in touched]
             snap = s.snapshot([insts[i] for i in widx])
             ch_idx = [i for i, y in zip(widx, snap) if base[i] != y]
-            if ch_idx and not full and all(insts[i][0] in _DUP for i in ch_idx):
+            if ch_idx and not full and t == len(ops) - 1 and not any(insts[i][0] in _CORE or i in touched for i in ch_idx):
                 return run_history(case, ops, detail, full=True)
             rec["changed"] = ch_idx
             steps.append(rec)
@@ -290,7 +272,7 @@ def run_history(case, ops=None, detail=False, full=False):
                     rec["after"] = s.report(insts[i])
                 break
     return {"steps": steps, "first_bad": first_bad, "insts": [[n, list(a)] for n, a in insts], "nargs": len(s.args),
-            "has_res": s.res is not None}
+            "argnames": sorted(s.args), "ctor": case["dm"]["ctor"], "has_res": s.res is not None}
 
 
 def _drop(ops, j):
@@ -359,7 +341,8 @@ def _model_request(obs, ops, steps):
             mops.append({"mutarg": rec["argno"], "i": 0 if rec["refused"] is None else 10**6})
         else:
             mops.append({"call": True})
-    return {"op": "heap", "kinds": kinds, "guarded": guarded, "args": [[1, 2, 3]] * obs["nargs"], "ops": mops}
+    keep = [i for i, a in enumerate(obs["argnames"]) if f"{obs['ctor']}.{a}" in ctor_shared()]
+    return {"op": "heap", "kinds": kinds, "guarded": guarded, "args": [[1, 2, 3]] * obs["nargs"], "keep": keep, "ops": mops}
 
 
 def requests(case, obs):
@@ -401,14 +384,17 @@ def judge(case, obs, replies):
     # correspondence: step by step, the model changes an answer exactly when the implementation does
     for t, (rec, m) in enumerate(zip(steps, rep["steps"])):
         real, model = bool(rec["changed"]), bool(m["changed"])
-        if real != model:
+        # the model treats a `memoShared` accessor as sharing the whole object; the implementation may share only part
+        # of it (label storage): "model changes, implementation does not" is an over-approximation, never a finding —
+        # and it cannot occur at all unless the generated table has a memoShared row (theorem answer_run)
+        if real and not model:
             out.append({"kind": "correspondence",
                         "what": f"step {t} ({_describe(case['ops'][t], rec, obs['insts'])}): model predicts "
                                 f"{'a changed answer' if model else 'all answers unchanged'}, implementation "
                                 f"{'changed' if real else 'unchanged'}",
                         "expected": m["changed"], "observed": rec["changed"]})
             break
-        if model and not set(m["changed"]) <= set(rec["changed"]):
+        if model and rec["op"] == "write" and not set(m["changed"]) <= set(rec["changed"]):
             out.append({"kind": "correspondence", "what": f"step {t}: the model changes accessors the implementation does not",
                         "expected": m["changed"], "observed": rec["changed"]})
             break
@@ -599,9 +585,9 @@ def _exhaustive():
 
 def gen(ctx):
     rng = ctx.rng
-    cases = [_case(rng) for _ in range(ctx.n(130, 1500))]
+    cases = [_case(rng) for _ in range(ctx.n(320, 3000))]
     # directed: read X / write through every channel of its type / re-read X, for every accessor instance
-    for _ in range(ctx.n(12, 60)):
+    for _ in range(ctx.n(30, 120)):
         c = _case(rng, length=1)
         with_res = c["res"] is not None
         rkind = None if not with_res else ("kernel" if c["res"]["name"] == "ELECTRE1" else "rank")
